@@ -1,0 +1,12 @@
+//go:build verif
+
+package grammar
+
+// ParseWithStats is Parse plus the number of parser steps (Stats.ExprCnt)
+// the parse executed. Read-only instrumentation used by the verification
+// harness in /verif; it is compiled only under the `verif` build tag.
+func ParseWithStats(filename string, b []byte, opts ...Option) (any, error, uint64) {
+	p := newParser(filename, b, opts...)
+	val, err := p.parse(g)
+	return val, err, p.ExprCnt
+}
